@@ -100,3 +100,8 @@ class Cond:
     expect_exhaust: bool = True
     tiers: tuple = ("quick", "thorough")
     cases: Optional[Callable] = None   # kind == concrete: () -> list of argument dicts
+
+
+def pick(v, options):
+    """decode a (possibly symbolic) index into a concrete element of `options`"""
+    return options[concrete_int(v, 0, len(options) - 1)]
